@@ -7,7 +7,7 @@ scratch tree and records everything in /verif/seeded/<seed-id>/ (patch.diff, dem
 import json, os, re, shutil, subprocess, sys
 
 ROOT = os.path.dirname(os.path.dirname(os.path.abspath(__file__)))
-S = "/tmp/scr/r"
+S = os.environ.get("SEED_SCRATCH", "/tmp/scr/r")
 
 
 def sh(cmd, **kw):
@@ -31,12 +31,17 @@ def main():
     env = dict(os.environ, PYTHONPATH=S)
     env.pop("SUIT_GENERATOR_VERIF", None)
     demo = os.path.abspath(os.path.join(src, "demo.py"))
-    r0 = subprocess.run(["/venv/bin/python", demo], cwd=S, env=env, capture_output=True, text=True, timeout=600)
+    def run_demo():
+        try:
+            return subprocess.run(["/venv/bin/python", demo], cwd=S, env=env, capture_output=True, text=True, timeout=300)
+        except subprocess.TimeoutExpired as e:  # a demo that hangs under the patch has failed
+            return subprocess.CompletedProcess(e.cmd, 124, stdout="", stderr="demo timed out after 300 s")
+    r0 = run_demo()
     ap = sh(f"git -C {S} apply {os.path.abspath(os.path.join(src, 'patch.diff'))}")
     if ap.returncode != 0:
         print("PATCH DOES NOT APPLY", ap.stderr)
         return 2
-    r1 = subprocess.run(["/venv/bin/python", demo], cwd=S, env=env, capture_output=True, text=True, timeout=600)
+    r1 = run_demo()
     base_ok = None
     if "--no-baseline" not in sys.argv:
         b = sh(f"/venv/bin/python {ROOT}/tools/baseline_check.py {S} -n 8")
@@ -45,10 +50,12 @@ def main():
     else:
         base_line = "skipped"
     checks = {}
-    os.makedirs("/tmp/scr/evidence", exist_ok=True)
-    os.makedirs("/tmp/scr/replays", exist_ok=True)
+    tag = re.sub(r"\W", "_", S)
+    EV, RP = f"/tmp/scr/evidence{tag}", f"/tmp/scr/replays{tag}"
+    os.makedirs(EV, exist_ok=True)
+    os.makedirs(RP, exist_ok=True)
     for pid in props:
-        e = dict(os.environ, VERIF_EVIDENCE_DIR="/tmp/scr/evidence", VERIF_REPLAY_DIR="/tmp/scr/replays", VERIF_REPO=S)
+        e = dict(os.environ, VERIF_EVIDENCE_DIR=EV, VERIF_REPLAY_DIR=RP, VERIF_REPO=S)
         c = subprocess.run([os.path.join(ROOT, "check"), pid, "--tier", tier], cwd=ROOT, env=e, capture_output=True, text=True)
         viol = [l for l in c.stdout.splitlines() if l.startswith("VIOLATION")]
         checks[pid] = {"exit": c.returncode, "violations": [re.sub(r"replay=\S*/", "replay=", v) for v in viol][:12], "summary": c.stdout.strip().splitlines()[-1:] if c.stdout.strip() else [c.stderr[-400:]]}
